@@ -21,6 +21,7 @@ import AgpTpf.Properties.C01ImpCut
 import AgpTpf.Properties.C09Imp
 import AgpTpf.Properties.C12Imp
 import AgpTpf.Properties.C12ImpIndex
+import AgpTpf.Properties.C01ImpMissing
 set_option linter.unusedSimpArgs false
 set_option linter.unusedVariables false
 namespace AgpTpf.ImpRemap
@@ -48,6 +49,13 @@ theorem Ref.of_map {τ μ ν : Type} {src : R τ} {mdl : R μ} (f : τ → ν) (
 theorem Ref.elim_ok {τ μ : Type} {Q : τ → μ → Prop} {src : R τ} {m : μ} (h : Ref Q src (.ok m)) : ∃ t, src = .ok t ∧ Q t m := h
 theorem Ref.elim_error {τ μ : Type} {Q : τ → μ → Prop} {src : R τ} {e : Err} (h : Ref Q src (.error e : R μ)) :
     src = .error e := h
+
+/-- `>>=` on the source side only (the model's computation is the last thing the model does) -/
+theorem Ref.bind_ok {τ μ τ' : Type} {Q : τ → μ → Prop} {Q' : τ' → μ → Prop} {src : R τ} {mdl : R μ} {k : τ → R τ'}
+    (h : Ref Q src mdl) (hk : ∀ t m, Q t m → Ref Q' (k t) (.ok m)) : Ref Q' (src >>= k) mdl := by
+  cases mdl with
+  | error e => simp only [Ref] at h; subst h; rfl
+  | ok m => obtain ⟨t, rfl, hq⟩ := h; exact hk t m hq
 
 /-- the source returned: so did the model, with a related value -/
 theorem Ref.of_src_ok {τ μ : Type} {Q : τ → μ → Prop} {src : R τ} {mdl : R μ} {t : τ} (h : Ref Q src mdl) (hs : src = .ok t) :
@@ -215,5 +223,348 @@ theorem bait_found_ref (b0 : Build) (tags : List Str) (name : Str) (bait : Fragm
         simp only [getRes_snoc] at hb'
         refine Eq.trans (b := _) hb' ?_
         simp only [mkBuild, hn]
+
+/-- what `find_assembly_overlaps_refines` says about the pair (source result, model result) -/
+def FindQ (b0 : Build) (t : List Res × List Found × PyRt.SrcNamer × List (Key × Nat) × List (Key × Nat)) (b' : Build) : Prop :=
+  RelF b0 (t.1, t.2.2.1, t.2.1, t.2.2.2.1, t.2.2.2.2) b'
+
+theorem find_tie (input ptx : List Scaffold) (b0 : Build) (fo : Fragment → R (Option OverlapResult))
+    (hfo : ∀ bait, fo bait = overlapsOf input bait)
+    (store : List Res) (s : PyRt.SrcNamer) (heap : List Found) (found multi : List (Key × Nat)) (b : Build)
+    (h : RelF b0 (store, s, heap, found, multi) b) :
+    Ref (FindQ b0) (Gen.Imp.BuildAssembly_find_assembly_overlaps store heap s found multi ptx b0.err fo)
+      (findAssemblyOverlaps input ptx b) := by
+  unfold Gen.Imp.BuildAssembly_find_assembly_overlaps findAssemblyOverlaps
+  dsimp only
+  refine forIn_bind_ok (RelF b0) ?step h ?fin
+  case fin =>
+    rintro ⟨store', s', heap', found', multi'⟩ b' hr
+    exact Ref.ok hr
+  case step =>
+    rintro ps - ⟨store, s, heap, found, multi⟩ b ⟨hw, hc, rfl⟩
+    dsimp only at hw hc ⊢
+    refine Ref.bind (make_name_ref s ps hw) ?_
+    rintro s1 n ⟨rfl, hw1⟩
+    refine forIn_bind (RelF b0) ?bait ⟨hw1, hc, rfl⟩ ?after
+    case after =>
+      rintro ⟨store', s', heap', found', multi'⟩ b' ⟨hw', hc', rfl⟩
+      dsimp only at hw' hc' ⊢
+      rw [rename_unlocs_eq]
+      exact Ref.ok ⟨_, rfl, hw', hc', rfl⟩
+    case bait =>
+      rintro bait - ⟨store, s, heap, found, multi⟩ b hr
+      rw [processBait_eq, hfo]
+      dsimp only
+      cases overlapsOf input bait with
+      | error e => rfl
+      | ok r =>
+        cases r with
+        | none => exact Ref.ok ⟨_, rfl, hr⟩
+        | some o =>
+          simp only [ok_bind, Option.map_some]
+          exact bait_found_ref b0 _ _ bait o store s heap found multi b hr _ rfl
+
+/-! ### 5. `cut_remaining_overhangs` -/
+
+/-- the loop state of the translated `cut_remaining_overhangs`: `(store, heap, multi, nextOid, cuts)`; the arena and `multi` are not
+    touched by the loop -/
+abbrev CSt := List Res × List Found × List (Key × Nat) × Nat × Int
+
+def RelC (b0 : Build) (heap : List Found) (multi : List (Key × Nat)) (st : CSt) (b : Build) : Prop :=
+  st.2.1 = heap ∧ st.2.2.1 = multi ∧ b = { b0 with store := st.1, nextOid := st.2.2.2.1, cuts := st.2.2.2.2 }
+
+/-- what `cut_remaining_refines` says about the pair (source result, model result) -/
+def CutQ (b0 : Build) (heap : List Found) (t : List Res × Nat × List Found × List (Key × Nat) × Int) (b' : Build) : Prop :=
+  t = (b'.store, b'.nextOid, heap, [], b'.cuts) ∧
+  b' = { b0 with store := b'.store, nextOid := b'.nextOid, cuts := b'.cuts, multi := [] }
+
+theorem cut_tie (b : Build) (heap : List Found) (found multi : List (Key × Nat))
+    (hc : C01.Coherent heap found multi) (hf : b.found = C01.absFound heap found) (hm : b.multi = multi.map (·.1)) :
+    Ref (CutQ b heap) (Gen.Imp.BuildAssembly_cut_remaining_overhangs b.store b.nextOid heap multi b.cuts) (cutRemaining b) := by
+  unfold Gen.Imp.BuildAssembly_cut_remaining_overhangs cutRemaining
+  rw [hm, List.foldlM_map, forIn_map]
+  refine forIn_bind (RelC b heap multi) ?step ⟨rfl, rfl, rfl⟩ ?fin
+  case fin =>
+    rintro ⟨store', heap', multi', oid', cuts'⟩ b' ⟨rfl, rfl, rfl⟩
+    exact Ref.ok ⟨rfl, rfl⟩
+  case step =>
+    rintro kv hkv ⟨store', heap', multi', oid', cuts'⟩ b' ⟨rfl, rfl, rfl⟩
+    dsimp only
+    have hg : dGet? b.found kv.1 = some (PyRt.getFound heap' kv.2) := by
+      rw [hf]
+      show dGet? (ImpFound.absFound heap' found) kv.1 = _
+      rw [ImpFound.dGet?_absFound, hc.2.2.1 kv hkv]
+      rfl
+    rw [hg]
+    dsimp only
+    have hsrc := C01.cut_fragments_is_source { b with store := store', nextOid := oid', cuts := cuts' } (PyRt.getFound heap' kv.2)
+    dsimp only at hsrc
+    rw [hsrc]
+    cases hcf : cutFragments { b with store := store', nextOid := oid', cuts := cuts' } (PyRt.getFound heap' kv.2) with
+    | error e => rfl
+    | ok b' =>
+      have hfr := C01.cut_fragments_frame _ _ _ hcf
+      refine Ref.ok ⟨_, rfl, rfl, rfl, ?_⟩
+      rw [hfr]
+
+/-! ### 6. `discardOverhanging` is insensitive to extra fuel (unless it ran out of it) -/
+
+theorem discardOverhanging_mono : ∀ (fuel : Nat) (b : Build) (r : R Build), discardOverhanging fuel b = r → r ≠ .error .other →
+    ∀ fuel', fuel ≤ fuel' → discardOverhanging fuel' b = r := by
+  intro fuel
+  induction fuel with
+  | zero => intro b r h hr; simp only [discardOverhanging] at h; exact absurd h.symm hr
+  | succ fuel ih =>
+    intro b r h hr fuel' hle
+    obtain ⟨k, rfl⟩ : ∃ k, fuel' = k + 1 := ⟨fuel' - 1, by omega⟩
+    simp only [discardOverhanging] at h ⊢
+    by_cases hm : b.multi.isEmpty = true
+    · simp only [hm, if_true] at h ⊢; exact h
+    · simp only [hm, if_false, Bool.false_eq_true] at h ⊢
+      cases hrr : resolverRound b with
+      | error e => rw [hrr] at h; exact h
+      | ok ob =>
+        rw [hrr] at h
+        cases ob with
+        | none => exact h
+        | some b' => exact ih b' r h hr k (by omega)
+
+/-! ### 7. the indexed input assembly: `overlapsOf input` IS the source's `input_asm.find_overlaps` -/
+
+/-- `IndexedAssembly.__init__`: `for scffld in scaffolds: self.add_scaffold(scffld)`, from the two empty dictionaries -/
+def indexInput (input : List Scaffold) : R (List (Str × Scaffold) × List (Str × List Int)) :=
+  input.foldlM (fun d sc => Gen.Imp.IndexedAssembly_add_scaffold d.1 d.2 sc) ([], [])
+
+/-- the duplicate-name check `remapToInput` starts with -/
+def dupStep (seen : List Str) (s : Scaffold) : R (List Str) :=
+  if seen.contains s.name then throw Err.value else pure (seen ++ [s.name])
+def dupCheck (input : List Scaffold) : R (List Str) := input.foldlM dupStep []
+
+def dictOf (l : List Scaffold) : List (Str × Scaffold) := l.map (fun sc => (sc.name, sc))
+def idxOf (l : List Scaffold) : List (Str × List Int) := l.map (fun sc => (sc.name, buildIndex sc.rows))
+
+/-- `scaffold_by_name`: ValueError for an unknown name -/
+def byNameOf (d : List (Str × Scaffold)) (n : Str) : R Scaffold :=
+  match dGet? d n with
+  | some sc => .ok sc
+  | none => .error .value
+/-- `self._scaffold_index.get(name)`; `None` (falsy, as the empty list) for an unknown name -/
+def indexGetOf (ix : List (Str × List Int)) (n : Str) : List Int := (dGet? ix n).getD []
+
+theorem dGet?_dictOf_isSome (l : List Scaffold) (n : Str) : (dGet? (dictOf l) n).isSome = (l.map (·.name)).contains n := by
+  induction l with
+  | nil => rfl
+  | cons a l ih =>
+    simp only [dictOf, List.map_cons, dGet?, List.contains_cons] at ih ⊢
+    by_cases h : a.name = n
+    · simp [h]
+    · have h' : ¬ n = a.name := fun e => h e.symm
+      simp [h, h', ih]
+
+theorem index_fold (rest : List Scaffold) : ∀ (pre : List Scaffold),
+    rest.foldlM (fun (d : List (Str × Scaffold) × List (Str × List Int)) sc => Gen.Imp.IndexedAssembly_add_scaffold d.1 d.2 sc)
+        (dictOf pre, idxOf pre)
+      = (rest.foldlM dupStep (pre.map Scaffold.name)).map
+          (fun _ => (dictOf (pre ++ rest), idxOf (pre ++ rest))) := by
+  induction rest with
+  | nil => intro pre; simp [List.foldlM_nil, pure, Except.pure, Except.map]
+  | cons sc rest ih =>
+    intro pre
+    rw [List.foldlM_cons, List.foldlM_cons, C12.add_scaffold_is_source, dGet?_dictOf_isSome]
+    have hstep : dupStep (pre.map Scaffold.name) sc
+        = if (pre.map Scaffold.name).contains sc.name = true then .error .value else .ok (pre.map Scaffold.name ++ [sc.name]) := rfl
+    rw [hstep]
+    by_cases h : (pre.map Scaffold.name).contains sc.name = true
+    · simp only [h, if_true]; rfl
+    · simp only [h, if_false, Bool.false_eq_true]
+      have hn : dGet? (dictOf pre) sc.name = none := by
+        have := dGet?_dictOf_isSome pre sc.name
+        cases hg : dGet? (dictOf pre) sc.name with
+        | none => rfl
+        | some v => rw [hg] at this; simp at this; simp [this] at h
+      have hn2 : dGet? (idxOf pre) sc.name = none := by
+        clear ih h hstep
+        induction pre with
+        | nil => rfl
+        | cons a pre ihp =>
+          simp only [dictOf, idxOf, List.map_cons, dGet?] at hn ihp ⊢
+          by_cases hk : a.name = sc.name
+          · simp [hk] at hn
+          · simp only [hk, if_false] at hn ⊢; exact ihp hn
+      rw [ImpFound.dSet_of_none _ hn, ImpFound.dSet_of_none _ hn2]
+      have e1 : dictOf pre ++ [(sc.name, sc)] = dictOf (pre ++ [sc]) := by simp [dictOf]
+      have e2 : idxOf pre ++ [(sc.name, buildIndex sc.rows)] = idxOf (pre ++ [sc]) := by simp [idxOf]
+      have e3 : pre.map Scaffold.name ++ [sc.name] = (pre ++ [sc]).map Scaffold.name := by simp
+      simp only [ok_bind, pure, Except.pure]
+      rw [e1, e2, e3, ih (pre ++ [sc])]
+      simp only [List.append_assoc, List.singleton_append]
+
+/-- indexing the input = the model's duplicate-name check; the dictionaries hold every scaffold, and its index, under its name -/
+theorem indexInput_eq (input : List Scaffold) :
+    indexInput input = (dupCheck input).map (fun _ => (dictOf input, idxOf input)) := by
+  have := index_fold input []
+  simpa [indexInput, dupCheck, dictOf, idxOf] using this
+
+theorem byNameOf_dictOf (input : List Scaffold) (n : Str) : byNameOf (dictOf input) n = lookupScaffold input n := by
+  unfold byNameOf lookupScaffold
+  induction input with
+  | nil => rfl
+  | cons a l ih =>
+    simp only [dictOf, List.map_cons, dGet?, List.find?_cons] at ih ⊢
+    by_cases h : a.name = n
+    · simp [h]
+    · simp only [h, if_false, decide_false]; exact ih
+
+theorem indexGetOf_idxOf (input : List Scaffold) (n : Str) (sc : Scaffold) (h : lookupScaffold input n = .ok sc) :
+    indexGetOf (idxOf input) n = buildIndex sc.rows := by
+  unfold indexGetOf
+  unfold lookupScaffold at h
+  induction input with
+  | nil => simp at h
+  | cons a l ih =>
+    simp only [idxOf, List.map_cons, dGet?, List.find?_cons] at ih h ⊢
+    by_cases hk : a.name = n
+    · simp only [hk, decide_true] at h; cases h; simp [hk]
+    · simp only [hk, decide_false, if_false] at h ⊢; exact ih h
+
+theorem lookupScaffold_mem (input : List Scaffold) (n : Str) (sc : Scaffold) (h : lookupScaffold input n = .ok sc) : sc ∈ input := by
+  unfold lookupScaffold at h
+  cases hf : input.find? (fun s => s.name = n) with
+  | none => rw [hf] at h; cases h
+  | some s => rw [hf] at h; cases h; exact List.mem_of_find?_eq_some hf
+
+/-- the model's lookup IS the source's `find_overlaps` on the indexed input, for every fuel above the longest scaffold -/
+theorem overlapsOf_is_source (input : List Scaffold) (fuel : Nat) (hfuel : ∀ sc ∈ input, sc.rows.length + 1 < fuel) (bait : Fragment) :
+    Gen.Imp.IndexedAssembly_find_overlaps fuel bait (byNameOf (dictOf input)) (indexGetOf (idxOf input)) = overlapsOf input bait := by
+  unfold overlapsOf
+  cases h : lookupScaffold input bait.name with
+  | error e =>
+    exact C12.find_overlaps_unknown_scaffold bait fuel _ e (by rw [byNameOf_dictOf, h]) _
+  | ok sc =>
+    exact C12.find_overlaps_is_source sc bait fuel (hfuel sc (lookupScaffold_mem _ _ _ h)) _ (by rw [byNameOf_dictOf, h]) _
+      (indexGetOf_idxOf _ _ _ h)
+
+/-! ### 8. the composition: `remap_to_input_assembly` -/
+
+/-- `remapToInput` after its duplicate-name check, from any start state -/
+def phase1 (input ptx : List Scaffold) (b0 : Build) : R Build :=
+  findAssemblyOverlaps input ptx b0 >>= fun b =>
+  discardOverhanging (totalRows b.store + 2) b >>= fun b =>
+  cutRemaining b >>= fun b =>
+  addMissing input { b with store := renameBySize b.store b.namer.haplotigScaffolds }
+
+/-- the state `remapToInput` starts from -/
+def initBuild (input : List Scaffold) (prefix_ : Str) (joinGap : Option Gap) (err : Int) : Build :=
+  { namer := { autosomePrefix := prefix_ },
+    nextOid := (input.flatMap Scaffold.fragments).foldl (fun m f => max m (f.oid + 1)) 0, joinGap := joinGap, err := err }
+
+theorem remapToInput_eq (input ptx : List Scaffold) (prefix_ : Str) (joinGap : Option Gap) (err : Int) :
+    remapToInput input ptx prefix_ joinGap err
+      = dupCheck input >>= fun _ => phase1 input ptx (initBuild input prefix_ joinGap err) := rfl
+
+/-- the fuel handed to `discard_overhanging_fragments`: what the model uses, or more when the model did not run out of it -/
+def FuelOk (input ptx : List Scaffold) (b0 : Build) (fuel : Nat) : Prop :=
+  ∀ b1, findAssemblyOverlaps input ptx b0 = .ok b1 →
+    fuel = totalRows b1.store + 2 ∨
+    (totalRows b1.store + 2 ≤ fuel ∧ discardOverhanging (totalRows b1.store + 2) b1 ≠ .error .other)
+
+/-- the result tuple of the translated `remap_to_input_assembly`:
+    `(store, nextOid, heap_lo, added_lo, heap_ff, namer, found, multi, cuts)` -/
+abbrev RemapT := List Res × Nat × List PyRt.Leftover × List Nat × List Found × PyRt.SrcNamer × List (Key × Nat) × List (Key × Nat) × Int
+
+def RemapQ (b0 : Build) (t : RemapT) (b : Build) : Prop :=
+  ∃ heap_lo heap_ff s found,
+    t = (b.store, b.nextOid, heap_lo, List.range heap_lo.length, heap_ff, s, found, [], b.cuts) ∧
+    C09.WfNamer s ∧ C01.Coherent heap_ff found [] ∧ (∀ x ∈ heap_lo, ImpMissing.loSrc (ImpMissing.loModel x) = x) ∧
+    b = { b0 with store := b.store, nextOid := b.nextOid, cuts := b.cuts, namer := C09.absNamer s,
+                  found := C01.absFound heap_ff found, multi := [], extra := b0.extra ++ heap_lo.map ImpMissing.loModel }
+
+theorem missing_ref (input : List Scaffold) (b : Build) (g : Gap) (hg : b.joinGap = some g) (s : PyRt.SrcNamer) (hw : C09.WfNamer s)
+    (heap : List Found) (found : List (Key × Nat)) (hn : b.namer = C09.absNamer s) (hf : b.found = C01.absFound heap found) :
+    Ref (fun (t : List PyRt.Leftover × List Nat × PyRt.SrcNamer) (b' : Build) =>
+          t.2.1 = List.range t.1.length ∧ C09.WfNamer t.2.2 ∧ (∀ x ∈ t.1, ImpMissing.loSrc (ImpMissing.loModel x) = x) ∧
+          b' = { b with namer := C09.absNamer t.2.2, extra := b.extra ++ t.1.map ImpMissing.loModel })
+      (Gen.Imp.BuildAssembly_add_missing_scaffolds_from_input s input g found) (addMissing input b) := by
+  have hkeys : ∀ k, (dGet? found k).isSome = dHas b.found k := by
+    intro k
+    rw [hf]
+    show _ = (dGet? (ImpFound.absFound heap found) k).isSome
+    rw [ImpFound.dGet?_absFound]
+    cases dGet? found k <;> rfl
+  obtain ⟨h1, h2⟩ := C01.add_missing_refines_of_namer_tie input b g hg s hw hn.symm found hkeys
+    (fun s sc ft _ => (C09.make_scaffold_name_refines s sc ft).1)
+    (fun s sc ft s' hws h => ((C09.make_scaffold_name_refines s sc ft).2 s' h).2.2 hws.1)
+  cases hsrc : Gen.Imp.BuildAssembly_add_missing_scaffolds_from_input s input g found with
+  | error e => rw [h2 e hsrc]; rfl
+  | ok t =>
+    obtain ⟨heap_lo, added, s'⟩ := t
+    obtain ⟨ha, hw', hl, hm⟩ := h1 heap_lo added s' hsrc
+    rw [hm]
+    exact Ref.ok ⟨ha, hw', hl, rfl⟩
+
+theorem phase1_tie (input ptx : List Scaffold) (b0 : Build) (g : Gap) (hg : b0.joinGap = some g)
+    (fo : Fragment → R (Option OverlapResult)) (hfo : ∀ bait, fo bait = overlapsOf input bait)
+    (s : PyRt.SrcNamer) (heap : List Found) (found multi : List (Key × Nat))
+    (h : RelF b0 (b0.store, s, heap, found, multi) b0) (fuel : Nat) (hfuel : FuelOk input ptx b0 fuel) :
+    Ref (RemapQ b0)
+      (Gen.Imp.BuildAssembly_remap_to_input_assembly fuel b0.store b0.nextOid heap s found multi b0.cuts ptx input b0.err g fo)
+      (phase1 input ptx b0) := by
+  unfold Gen.Imp.BuildAssembly_remap_to_input_assembly phase1
+  dsimp only
+  -- find_assembly_overlaps
+  have h1 := find_tie input ptx b0 fo hfo b0.store s heap found multi b0 h
+  cases hfa : findAssemblyOverlaps input ptx b0 with
+  | error e => rw [hfa] at h1; rw [Ref.elim_error h1]; rfl
+  | ok b1 =>
+    rw [hfa] at h1
+    obtain ⟨⟨store1, heap1, s1, found1, multi1⟩, hs1, hw1, hc1, hb1⟩ := Ref.elim_ok h1
+    dsimp only at hw1 hc1 hb1
+    rw [hs1]
+    simp only [ok_bind]
+    -- discard_overhanging_fragments: the fuel
+    have hfu : discardOverhanging (totalRows b1.store + 2) b1 = discardOverhanging fuel b1 := by
+      rcases hfuel b1 hfa with h | ⟨hle, hne⟩
+      · rw [h]
+      · exact (discardOverhanging_mono _ b1 _ rfl hne fuel hle).symm
+    rw [hfu]
+    have h2 := C01.discard_overhanging_refines fuel b1 heap1 found1 multi1 hc1 (by rw [hb1]; rfl) (by rw [hb1]; rfl)
+    have hst1 : b1.store = store1 := by rw [hb1]; rfl
+    have herr1 : b1.err = b0.err := by rw [hb1]; rfl
+    rw [hst1, herr1] at h2
+    cases hd : discardOverhanging fuel b1 with
+    | error e => rw [hd] at h2; simp only [] at h2; rw [h2]; rfl
+    | ok b2 =>
+      rw [hd] at h2
+      obtain ⟨heap2, multi2, hs2, hc2, hb2⟩ := h2
+      rw [hs2]
+      simp only [ok_bind]
+      -- cut_remaining_overhangs
+      have h3 := cut_tie b2 heap2 found1 multi2 hc2 (by rw [hb2]) (by rw [hb2])
+      have hoid2 : b2.nextOid = b0.nextOid := by rw [hb2, hb1]; rfl
+      have hcuts2 : b2.cuts = b0.cuts := by rw [hb2, hb1]; rfl
+      rw [hoid2, hcuts2] at h3
+      cases hc : cutRemaining b2 with
+      | error e => rw [hc] at h3; rw [Ref.elim_error h3]; rfl
+      | ok b3 =>
+        rw [hc] at h3
+        obtain ⟨t3, hs3, rfl, hb3⟩ := Ref.elim_ok h3
+        rw [hs3]
+        simp only [ok_bind]
+        -- rename_haplotigs_by_size
+        rw [rename_haplotigs_eq]
+        simp only [ok_bind]
+        -- add_missing_scaffolds_from_input
+        have hn3 : b3.namer = C09.absNamer s1 := by rw [hb3, hb2, hb1]; rfl
+        have hf3 : b3.found = C01.absFound heap2 found1 := by rw [hb3, hb2]
+        have hg3 : b3.joinGap = some g := by rw [hb3, hb2, hb1]; exact hg
+        have h4 := missing_ref input { b3 with store := renameBySize b3.store b3.namer.haplotigScaffolds } g hg3 s1 hw1 heap2 found1
+          hn3 hf3
+        refine Ref.bind_ok h4 ?_
+        rintro ⟨heap_lo, added, s4⟩ b4 ⟨ha, hw4, hl, rfl⟩
+        dsimp only at ha hw4 hl ⊢
+        subst ha
+        refine Ref.ok ⟨heap_lo, heap2, s4, found1, ?_, hw4, ⟨hc2.1, hc2.2.1, by simp, by simp⟩, hl, ?_⟩
+        · rw [hn3]; rfl
+        · rw [hb3, hb2, hb1]; rfl
 
 end AgpTpf.ImpRemap
